@@ -38,6 +38,12 @@ func main() {
 		fmt.Fprintf(os.Stderr, "usage: vcheck <%s> <quick|thorough> | vcheck replay <file>\n", strings.Join(ids, "|"))
 		os.Exit(2)
 	}
+	if os.Args[1] == "c09-struct" && len(os.Args) == 4 {
+		var n int
+		fmt.Sscan(os.Args[3], &n)
+		c09StructChild(os.Args[2], n)
+		os.Exit(0)
+	}
 	if os.Args[1] == "replay" {
 		prop, key, c, err := mc.ReadReplay(os.Args[2])
 		if err != nil {
